@@ -37,7 +37,14 @@ CLAIMED = {
     "C02": dict(
         text=("Theorem (Coq): on the documented fragment the term-algebra model (every operator overload of terms.py) "
               "accepts the formula and its result equals the Wilkinson set semantics (Spec/Wilkinson.v); refuted "
-              "witnesses for the three listed findings. See the property file for the exact fragment." + COMMON),
+              "witnesses for the three listed findings. See the property file for the exact fragment. Identity of call "
+              "atoms (C02_keywords.v): equality of calls is an equivalence on calls with distinct keyword names (which "
+              "every resolved call has), insensitive to the ORDER of the keyword arguments at any depth and sensitive "
+              "to callee, positional order, keyword names and values; lifted to terms and to the operand relation of "
+              "the operator laws, so f(x, a=1, b=2) + f(x, b=2, a=1) is one term (the first spelling written), "
+              "'-' removes it whichever spelling is subtracted, ':' collapses it -- for every callee, argument list "
+              "and permutation at tree level, and for ALL identifier strings through the real scanner and parser "
+              "for the two-keyword shape (KF-C02-11, repaired in /repo)." + COMMON),
         design_ref="DESIGN.md section 5 C02, section 10",
         technique="Coq proof: refinement of set semantics by the operator model; differential correspondence on exhaustive operator trees"),
     "C03": dict(
@@ -67,7 +74,11 @@ CLAIMED = {
               "indicators, prop = successes and trials); level order: strictly sorted by the model's string order (a "
               "proved strict total order) for str data, as declared for ordered data / levels=, numerically for integer "
               "codes; labels are pairwise distinct under three explicit conditions, each shown necessary by a "
-              "refuted witness (a back-quoted name `f[a]`, a level containing ']:g[', a level named mean). "
+              "refuted witness (a back-quoted name `f[a]`, a level containing ']:g[', a level named mean). The whole "
+              "GROUP-specific matrix (C04_group_whole.v): labels = printed (effect, group cell) pairs, as many as columns, "
+              "entry (i, j) = the effect's value if observation i is in the cell and 0 * that value otherwise (0, or NaN "
+              "under pass: refuted 'always 0 elsewhere'), group cell slowest and effect fastest, terms in order; response, "
+              "common and group matrices are row-aligned for every accepted design and every na_action. "
               "Listed finding KF-C04-1: a spline basis without any column keeps one label." + COMMON),
         design_ref="DESIGN.md section 5 C04, section 10",
         technique="Coq proof: labelled Kronecker product / indicator coding; differential correspondence; label-denotation oracle"),
@@ -87,6 +98,11 @@ CLAIMED = {
               "independent columns iff x is not constant within any group, (0 + x|g) iff x is non-zero somewhere in "
               "every group, p effect columns iff the within-group effect matrix has rank p in every group; the span "
               "is a separate regression within each group; a common intercept plus (1|g) is always rank deficient. "
+              "Bridge (C05_bridge.v): Qc is made a MathComp field on its own operations, and the matrix of the rows the "
+              "MODEL builds for a group term over one Treatment-coded factor IS that block (gterm_bridge), so the "
+              "rank / span theorems are statements about the model's output: (1|g) + (x|g) has 2G independent columns "
+              "iff x takes two values in every group, (0 + x|g) iff x is non-zero somewhere in every group; a computed "
+              "6-row example goes from the formula text through design_matrices to rank 4. "
               "The rank oracle on crossed data decides every other input." + COMMON),
         design_ref="DESIGN.md section 5 C05, section 10",
         technique="Coq proof: one-hot Kronecker block structure; rank oracle on crossed designs; correspondence"),
@@ -95,7 +111,12 @@ CLAIMED = {
               "parameters, hence the new common matrix AND the new group-specific matrix on any list of training rows "
               "are those rows of the training matrices, in every unseen-level mode, including poly and bs (see "
               "property file for the covered call shapes); prediction records nothing; refuted witnesses for the two "
-              "listed findings (level re-validation, stateless binary)." + COMMON),
+              "listed findings (level re-validation, stateless binary). Prediction never drops a row (C06_pass.v): for "
+              "EVERY design, mode and well-formed frame the new common and group matrices have one row per row of the "
+              "frame; designs built under na_action='pass' (a decidable class of formulas) return, for any row list "
+              "incl. the incomplete rows, exactly those rows of the training matrices (NaN cells stay); designs built "
+              "under 'drop' evaluated on original rows that were dropped return one row each, NaN exactly in the "
+              "terms that read the missing variable." + COMMON),
         design_ref="DESIGN.md section 5 C06, section 10",
         technique="Coq proof: row-locality / frozen state of the prediction pass; correspondence on row multisets of the training frame"),
     "C07": dict(
@@ -144,7 +165,12 @@ CLAIMED = {
         text=("Theorems (Coq): hazard-free Python operator trees printed with minimal parentheses parse (parser "
               "completeness) to the same tree formulae evaluates; {e} is I(e); refuted witnesses for unary sign before "
               "**, ** associativity and parenthesis-dropping names (listed findings). Python's own parser/eval is the "
-              "specification of Python (validated by ast.parse in the harness)." + COMMON),
+              "specification of Python (validated by ast.parse in the harness). Literals (C12_literals.v): an integer "
+              "literal of ANY length scans to the NUMBER token holding exactly its decimal value (through the real "
+              "scanner), its name is the canonical decimal, decimal round trips both ways, calls that differ in any "
+              "digit of an integer argument are different terms with different names; decimal literals denote the "
+              "exact rational ip + fp/10^len, '.5' accepted, '1.' rejected; no negative NUMBER token (unary minus); "
+              "refuted: names do not keep the digits as typed ('1.50' prints 1.5)." + COMMON),
         design_ref="DESIGN.md section 5 C12, section 10",
         technique="Coq proof: Python-expression round trip through the formula grammar; correspondence against Python's eval"),
     "C13": dict(
@@ -158,7 +184,11 @@ CLAIMED = {
               "(C13_options.v): levels sorted or in the declared / levels= order, levels= accepted iff it has the "
               "values of the data as a set, a named reference / omitted level refused iff consulted and absent, "
               "labels = levels without the level left out, defaults = first / last level of the order in force, end "
-              "to end through C / T / S calls." + COMMON),
+              "to end through C / T / S calls. Re-boxing (C13_rebox.v): C() around an already coded factor keeps the inner "
+              "contrast and, independently, the inner levels unless the outer call gives them anew (one law, four "
+              "cases; any chain of re-boxings = one call with the last given option winning per option); nested and "
+              "flat spellings give the same component up to its name, validation applies to the merged options; the "
+              "'both absent' reading of the fall-back is refuted by a computed witness." + COMMON),
         design_ref="DESIGN.md section 5 C13, section 10",
         technique="Coq/MathComp proof: explicit inverses and column-space equalities of contrast matrices; exhaustive correspondence n = 1..12"),
     "C14": dict(
